@@ -35,10 +35,37 @@ var _ client.Client = (*Client)(nil)
 var errInjected = errors.New("injected API fault")
 var errDead = errors.New("process crashed")
 
+// faultErr: an injected API fault. It is recognisable as such (errors.Is(err, errInjected)) and at the same time
+// carries the API status of a transient server-side failure, cycling through the kinds a real apiserver returns,
+// so that code which classifies errors (retry on 429/503/timeouts ...) takes those paths.
+type faultErr struct{ *apierrors.StatusError }
+
+func (f faultErr) Is(target error) bool { return target == errInjected }
+
+func (s *Sim) injected() error {
+	s.faultSeq++
+	gr := schema.GroupResource{Group: "verif", Resource: "injected"}
+	switch s.faultSeq % 6 {
+	case 0:
+		return errInjected // connection reset: no API status at all
+	case 1:
+		return faultErr{apierrors.NewTooManyRequests("injected API fault", 1)}
+	case 2:
+		return faultErr{apierrors.NewServiceUnavailable("injected API fault")}
+	case 3:
+		return faultErr{apierrors.NewServerTimeout(gr, "injected", 1)}
+	case 4:
+		return faultErr{apierrors.NewTimeoutError("injected API fault", 1)}
+	}
+	return faultErr{apierrors.NewInternalError(errInjected)}
+}
+
 func errClass(err error) string {
 	switch {
 	case err == nil:
 		return "ok"
+	case errors.Is(err, errInjected):
+		return "Fault"
 	case apierrors.IsNotFound(err):
 		return "NotFound"
 	case apierrors.IsConflict(err):
@@ -136,7 +163,7 @@ func (c *Client) Get(ctx context.Context, key client.ObjectKey, obj client.Objec
 	}
 	if fault != "" {
 		c.emit(p, "Get", k, false, errInjected, Proj{}, Proj{}, nil)
-		return errInjected
+		return c.sim.injected()
 	}
 	if kerr != nil {
 		c.emit(p, "Get", k, false, kerr, Proj{}, Proj{}, nil)
@@ -173,7 +200,7 @@ func (c *Client) List(ctx context.Context, list client.ObjectList, opts ...clien
 	}
 	if fault != "" {
 		c.emit(p, "List", k, false, errInjected, Proj{}, Proj{}, nil)
-		return errInjected
+		return c.sim.injected()
 	}
 	if _, ok := st.kinds[gvk.GroupKind()]; !ok {
 		e := &meta.NoKindMatchError{GroupKind: gvk.GroupKind()}
@@ -251,7 +278,7 @@ func (c *Client) write(ctx context.Context, ev string, obj client.Object, dry bo
 		}
 		args["lost"] = false
 		c.emit(p, ev, k, dry, errInjected, pr, pr, args)
-		return errInjected
+		return c.sim.injected()
 	}
 	if kerr != nil {
 		if args == nil {
@@ -292,7 +319,7 @@ func (c *Client) write(ctx context.Context, ev string, obj client.Object, dry bo
 	if fault == "after" {
 		args["lost"] = true
 		c.emit(p, ev, k, dry, errInjected, prep, postp, args)
-		return errInjected
+		return c.sim.injected()
 	}
 	if werr == nil && res != nil {
 		args["ret"] = c.proj(res)
